@@ -218,3 +218,52 @@ func checkChart(depth, maxLen int) {
 func Harness_CHART_d1_len2() { checkChart(1, 2) }
 func Harness_CHART_d1_len3() { checkChart(1, 3) }
 func Harness_CHART_d2_len3() { checkChart(2, 3) }
+
+// The decoder ranges over Go maps, whose iteration order is unspecified: the same chart, decoded in every
+// order of its (2-3 entry) levels, must classify addresses as the JSON describes and round-trip unchanged.
+// Natively the order is the runtime's random choice; the check is repeated there.
+func checkChartAnyDecodeOrder(maxLen int, first, second bool) {
+	reps := 1
+	if !verifIsSymbolic() {
+		reps = 64
+	}
+	js := genChart(1)
+	raw, err := json.Marshal(js)
+	verifAssume(err == nil)
+	segs := genAddress(maxLen)
+	want := refAccept(js, segs, true)
+	for rep := 0; rep < reps; rep++ {
+		var chart ChartOfAccounts
+		verifMapOrders(first)
+		err := json.Unmarshal(raw, &chart)
+		verifMapOrders(false)
+		if err != nil {
+			verifAssert("C29:generated-chart-is-valid", false)
+			return
+		}
+		acc, ferr := findAccountSchema([]string{}, map[string]ChartSegment(chart), nil, segs)
+		verifAssert("C29:chart-accepts-exactly-the-addresses-it-describes", (ferr == nil) == want.accepted)
+		if ferr == nil && want.accepted {
+			verifAssert("C29:default-metadata-of-the-matched-account", sameDefaults(want.defaults, acc))
+		}
+		raw2, err := json.Marshal(chart)
+		verifAssert("C30:chart-marshals", err == nil)
+		var chart2 ChartOfAccounts
+		verifMapOrders(second)
+		err = json.Unmarshal(raw2, &chart2)
+		verifMapOrders(false)
+		if err != nil {
+			verifAssert("C30:marshalled-chart-is-accepted-again", false)
+			return
+		}
+		acc2, ferr2 := findAccountSchema([]string{}, map[string]ChartSegment(chart2), nil, segs)
+		verifAssert("C30:same-addresses-accepted-after-the-round-trip", (ferr2 == nil) == want.accepted)
+		if ferr2 == nil && want.accepted {
+			verifAssert("C30:same-default-metadata-after-the-round-trip", sameDefaults(want.defaults, acc2))
+		}
+	}
+	verifReach("end")
+}
+
+func Harness_CHART_order1_len2() { checkChartAnyDecodeOrder(2, true, false) }
+func Harness_CHART_order2_len2() { checkChartAnyDecodeOrder(2, false, true) }
